@@ -48,7 +48,7 @@ META = dict(
                   "nesting <= 3 with reduced menus (2 counts, 1 isotope, 2 ions, 2 density tags, separators "
                   "'', ' ', '+'); + 4 elements over {H,Co,D}, deviation <= 2, nesting <= 3, reduced menus; "
                   "(c) as quick; (d) base set <= 2 elements, deviation <= 2, nesting 1; "
-                  "and the whole quick set again on a private table")),
+                  "and the whole quick set again on a private table with customised masses")),
     assumptions=[
         "reading conventions of the reference (mc/ref/formula.py): count optional in group/element; "
         "maximal tokens; `space` = one blank; the empty separator only next to a parenthesis and never "
@@ -115,6 +115,11 @@ class Env(object):
             T = periodictable.core.PeriodicTable(name)
             periodictable.mass.init(T)
             periodictable.density.init(T)
+            # a private table exists to carry customised data (doc/sphinx/guide/customizing.rst): give it
+            # masses of its own, so that a parser that reads anything from the public table is seen
+            for atom, factor in ((T.H, 1.0 / 1.00794), (T.D, 1.01), (T.O, 1.02), (T.O[18], 0.99), (T.Co, 1.03),
+                                 (T.Co[59], 0.98), (T.H[1], 1.005), (T.C, 0.97), (T.Fe[56], 1.015)):
+                atom._mass = atom._mass * factor
             self.kw = dict(table=T)
         else:
             T = pt.elements
@@ -987,6 +992,9 @@ def run(ctx):
     plan = _plan(ctx.quick, False, ctx.jobs)
     if not ctx.quick:
         plan += _plan(True, True, ctx.jobs)
+    else:
+        # quick: the small structural set once more on a private table with customised masses
+        plan += [(shard_structural, (True, "full", 2, 2, 2, p, 2, None)) for p in range(2)]
     # big shards first (better packing); the seed only rotates the order
     ctx.pmap(_run_shard, rotate(plan, ctx.seed))
     acc = ctx.acc
